@@ -231,6 +231,7 @@ def generate(seed, run, tier="quick", overrides=None):
         "rename.permute": prng.choice([1, 3]), "rename.subs": prng.choice([1, 3, 5]),
         "rename.minimize": prng.choice([0, 1, 2]), "rename.copy": prng.choice([0, 1]),
         "rename.term": prng.choice([0, 1, 2]),
+        "respin": prng.choice([1, 2]) if spin_mode else 0,
         "misc": 0 if faultfree else prng.choice([0, 1]),
     }
     kinds = [k for k, w in weights.items() for _ in range(w)]
@@ -278,6 +279,8 @@ def generate(seed, run, tier="quick", overrides=None):
             which = rng.choice(["psi", "psi", "h1", "operator", "energy", "expand_itmd",
                                 "expand_itmd", "import", "norm_factor", "amplitude"])
             st = {"op": "lib", "which": which, "pick": rng.randrange(1 << 20)}
+        elif k == "respin":
+            st = {"op": "respin", "slot": rng.randrange(n_slots), "mask": rng.randrange(1, 16)}
         elif k.startswith("rename."):
             st = {"op": k, "slot": rng.randrange(n_slots)}
             if rng.random() < 0.5:
@@ -584,8 +587,34 @@ class C08Session:
         # precondition (DESIGN §5.2): a name already handed out as generic is never a target
         targets = tuple(t for t in targets
                         if not self.model.was_generic(self.key_of(t), t.name))
-        self.slots[st["slot"]] = {"expr": expr, "targets": targets, "fp": None}
+        self.slots[st["slot"]] = {"expr": expr, "targets": targets, "fp": None, "spec": st}
         return {"built": str(expr), "targets": [str(t) for t in targets]}
+
+    def op_respin(self, st):
+        """rebuild a slot's expression with the spin labels of (some of) its target indices
+        flipped, everything else - in particular the contracted index objects - unchanged"""
+        sl = self._slot(st)
+        if sl is None or "spec" not in sl:
+            return {"skip": True}
+        import json
+        spec = sl["spec"]
+        flips = {}
+        for n, t in enumerate(spec["targets"]):
+            name, _, spin = t.partition(":")
+            if spin and (st["mask"] >> n) & 1:
+                flips[t] = f"{name}:{'b' if spin == 'a' else 'a'}"
+        if not flips:
+            return {"skip": True}
+        def swap(x):
+            if isinstance(x, str):
+                return flips.get(x, x)
+            if isinstance(x, list):
+                return [swap(y) for y in x]
+            if isinstance(x, dict):
+                return {k: swap(v) for k, v in x.items()}
+            return x
+        new_spec = swap(json.loads(json.dumps(spec)))
+        return self.op_build(dict(new_spec, op="build"))
 
     def _slot(self, st):
         if not self.slots:
@@ -748,14 +777,19 @@ class C08Session:
         for term in (expr.args if expr.is_Add else (expr,)):
             cnt = {}
             for a in (term.args if isinstance(term, Mul) else (term,)):
+                mult = 1
                 if isinstance(a, Pow):
-                    return None
+                    # X_kl**2 is X_kl X_kl; orbital-energy brackets are not countable
+                    a, ex = a.args
+                    if not ex.is_Integer or not hasattr(a, "idx"):
+                        return None
+                    mult = abs(int(ex))
                 if a.is_Number:
                     continue
-                for s_ in getattr(a, "idx", None) or a.atoms(self.Index):
-                    cnt[s_] = cnt.get(s_, 0) + 1
                 if not hasattr(a, "idx"):
                     return None
+                for s_ in a.idx:
+                    cnt[s_] = cnt.get(s_, 0) + mult
             once = {s_ for s_, n in cnt.items() if n == 1}
             if any(n > 2 for n in cnt.values()):
                 return None
